@@ -268,6 +268,18 @@ struct C15 : Scenario {
 		}
 		// extraction that meets refusals: the caller carries on, and what the reader presents afterwards must still follow the model
 		if (nt == 1) gen_fs_refusals(rng, p, "/w/t0");
+		// the input ends (S-EOF) or starts failing (S-ERR, lasting or transient) at an arbitrary offset, for every reader alike:
+		// what the archive yields up to there must still not depend on how the members before were treated, and the end is final
+		if (rng.chance(1, 6)) {
+			BuiltArchive a = build_archive(p);
+			int64_t at = (int64_t) rng.below(a.bytes.size() + 1);
+			// (a transient error is not used here: the library may or may not get over it, both are fine)
+			int how = (int) rng.below(2);
+			for (auto &t : p.tasks) {
+				if (how == 0) t.trunc = at;
+				else t.errat = at;
+			}
+		}
 		if (rng.chance(1, 3)) p.seti("twice", 1);
 		if (nt > 1) {
 			p.seti("sched_seed", (int64_t) rng.below(1u << 30));
@@ -280,8 +292,23 @@ struct C15 : Scenario {
 		RunResult res;
 		BuiltArchive a = build_archive(p);
 		uint64_t budget = 8192 + 16 * a.bytes.size();
-		Canon c = canonical(a.bytes, budget);
-		if (!c.ok) { res.fail("C15.canonical", "canonical", "canonical traversal did not complete"); res.trace = finish_trace(); return res; }
+		// the reference of a reader is what the archive yields up to the point where that reader's input ends or fails
+		auto cut_of = [&](const Task &t) -> int64_t {
+			int64_t cut = -1;
+			if (t.trunc >= 0) cut = t.trunc;
+			if (t.errat >= 0 && !t.erronce && (cut < 0 || t.errat < cut)) cut = t.errat;
+			if (cut >= (int64_t) a.bytes.size()) cut = -1;
+			return cut;
+		};
+		std::map<int64_t, Canon> canons;
+		for (auto &t : p.tasks) {
+			int64_t cut = cut_of(t);
+			if (canons.count(cut)) continue;
+			Bytes upto = a.bytes;
+			if (cut >= 0) { upto.resize((size_t) cut); count("kind.input_cut_short"); }
+			canons[cut] = canonical(upto, budget);
+			if (!canons[cut].ok) { res.fail("C15.canonical", "canonical", "canonical traversal did not complete"); res.trace = finish_trace(); return res; }
+		}
 		Rng clockrng(p.seed, 1500, p.run);
 		SimFS fs;
 		setup_fs(fs, p, &clockrng);
@@ -356,7 +383,7 @@ struct C15 : Scenario {
 		for (size_t k = 0; k < p.tasks.size() && res.ok; ++k) {
 			if (outs[k].budget) { res.fail("C15.budget", "budget", strf("reader %zu: a call did not return within the step budget (%s)", k, outs[k].budget_api.c_str())); break; }
 			if (outs[k].c11_bad) { res.fail("C11.invariant", "c11", outs[k].c11_why); break; }
-			ModelVerdict mv = model_check(c, p.tasks[k], outs[k]);
+			ModelVerdict mv = model_check(canons[cut_of(p.tasks[k])], p.tasks[k], outs[k]);
 			represented += mv.represented;
 			touched += mv.touched;
 			if (!mv.ok) res.fail(mv.clause, mv.clause.substr(4) + (p.tasks.size() > 1 ? ":multi" : ""), strf("reader %zu/%zu (%s, policy %d): %s", k, p.tasks.size(), p.tasks[k].kind.c_str(), p.tasks[k].policy, mv.detail.c_str()));
